@@ -197,13 +197,24 @@ def impl_env():
     return env
 
 
+def _limit_impl_memory():
+    """the implementation under test may be broken in ways that make it ask for absurd amounts of memory (a damaged
+    header read as a shape): an interpreter that wants more than 6 GiB of address space fails with MemoryError"""
+    import resource
+    lim = 6 * 1024 ** 3
+    try:
+        resource.setrlimit(resource.RLIMIT_AS, (lim, lim))
+    except (ValueError, OSError):
+        pass
+
+
 def run_impl(ctx, script, payload, timeout=1800, tag=""):
     """run harness/impl/<script>.py in a fresh interpreter; JSON in, JSON out"""
     d = os.path.join(ctx.work, "impl_%s%s" % (script, tag))
     os.makedirs(d, exist_ok=True)
     p = subprocess.run([IMPL_PY, os.path.join(VERIF, "harness", "impl", script + ".py")],
                        input=json.dumps(payload), cwd=d, env=impl_env(), timeout=timeout,
-                       stdout=subprocess.PIPE, stderr=subprocess.PIPE, text=True)
+                       stdout=subprocess.PIPE, stderr=subprocess.PIPE, text=True, preexec_fn=_limit_impl_memory)
     shutil.rmtree(d, ignore_errors=True)
     if p.returncode != 0:
         raise ImplCrash(script, payload, p.returncode, p.stderr[-3000:])
@@ -222,7 +233,7 @@ def run_impl_parallel(ctx, script, payloads, timeout=1800):
         with open(fin, "w") as f:
             json.dump(pl, f)
         p = subprocess.Popen([IMPL_PY, os.path.join(VERIF, "harness", "impl", script + ".py")],
-                             stdin=open(fin), cwd=d, env=impl_env(), stdout=open(fout, "w"), stderr=open(ferr, "w"))
+                             stdin=open(fin), cwd=d, env=impl_env(), stdout=open(fout, "w"), stderr=open(ferr, "w"), preexec_fn=_limit_impl_memory)
         procs.append((p, d, fout, ferr))
     outs = []
     t_end = time.time() + timeout
